@@ -61,6 +61,20 @@ def gen_histories(seed, tier, pid):
             st = r.choice(bc.STRATS)
             steps += ["s:%s:0" % st, "s:%s:0" % st]
             hs.append(("row-loss", ";".join(steps)))
+    # two or three rename conflicts on the same path, back to back (the real runs fall into one wall-clock second): every
+    # conflict copy must survive and reach the other side
+    n6 = 40 if tier == "quick" else 600
+    for _ in range(n6):
+        steps = []
+        pid_ = r.choice(bc.IDS)
+        for ph in range(r.randrange(2, 4)):
+            steps.append("e:S:%d:c:%d:%d" % (pid_, r.choice([3, 5]), r.randrange(1, 250)))
+            steps.append("e:D:%d:c:%d:%d" % (pid_, r.choice([2, 7]), r.randrange(1, 250)))
+            steps.append("s:rename:0")
+            if r.random() < 0.5:
+                steps.append("s:%s:0" % r.choice(bc.STRATS))
+        steps += ["s:rename:0", "s:rename:0"]
+        hs.append(("repeat-rename", ";".join(steps)))
     # several sync phases on one or two paths, deletions frequent: delete on both sides, re-create on one, ...
     n5 = 300 if tier == "quick" else 5000
     for _ in range(n5):
@@ -104,8 +118,8 @@ def run_generic(pid, oracle, tier, seed, exhaustive_depth=None):
     nontrivial = set()
     skipped_clock = 0
     for (fam, h), line, a, b in zip(hs, lines, hi, hm):
-        if bc.repeated_rename_conflict(a) or bc.repeated_rename_conflict(b):
-            skipped_clock += 1          # two rename conflicts on one path: the outcome depends on whether they fall into one second
+        if bc.repeated_rename_conflict(a):
+            viol.append({"history": line, "why": "a conflict copy made by an earlier run was replaced by a later rename: that version exists nowhere any more", "implementation": a, "model": b})
             continue
         if a != b:
             hdiff.append((line, a, b))
